@@ -241,7 +241,7 @@ theorem C03_obj_unser_iff (x : Ext) (fuel : Nat) (env : Env) (id : String) (prop
     (sh : MapShape) (kvs : List (V × V)) (r : V) :
     run x (fuel + 1) .U env (.obj id props) (.map sh kvs) = .ok r ↔
       ∃ skvs m m', strKeys? kvs = some skvs ∧ (∀ kv, kv ∈ skvs → hasKey kv.1 props = true) ∧
-        applyDefaults props skvs = .ok m ∧ unserProps (run x fuel) env props m = .ok m' ∧
+        applyDefaults props skvs = .ok m ∧ forSV (objEntryU (run x fuel) env props) m = .ok m' ∧
         (∀ np, np ∈ props → RuleHolds (fun k => hasKey k m') np.1 np.2) ∧ r = toStrAny m' := by
   simp only [run, runObj, objRaw, V.mapEntries?]
   constructor
@@ -277,81 +277,48 @@ theorem C03_obj_unser_iff (x : Ext) (fuel : Nat) (env : Env) (id : String) (prop
         simp at hk
     simp [hs, hany, h5, h6, Out.bind, (C03_rules_iff _ _).mpr h7]
 
-/-- Unserializing the present properties never adds or removes a key. -/
-theorem hasKey_setKey {α} (k id : String) (v : α) (m : List (String × α)) (h : hasKey id m = true) :
-    hasKey k (setKey id v m) = hasKey k m := by
-  induction m with
-  | nil => simp [hasKey, lookupS] at h
-  | cons p rest ih =>
-    obtain ⟨k', v'⟩ := p
-    simp only [setKey]
-    split
-    · rename_i heq
-      have : id = k' := by simpa using heq
-      subst this
-      simp only [hasKey, lookupS]
-      split <;> simp
-    · rename_i hne
-      simp only [hasKey, lookupS] at h ⊢
-      split
-      · rfl
-      · have h' : hasKey id rest = true := by
-          simp only [hasKey]
-          split at h
-          · rename_i heq; exact absurd heq hne
-          · exact h
-        exact ih h'
+/-- Unserializing the present properties never adds, removes or reorders a key. -/
+theorem allSV_keys {f : String → V → Out V} {m m' : List (String × V)} (h : AllSV f m m') :
+    m'.map Prod.fst = m.map Prod.fst := by
+  induction h with
+  | nil => rfl
+  | cons _ _ ih => simp [ih]
 
-theorem C03_unser_keeps_keys {rec : Rec} {env : Env} : ∀ (props : List (String × PropT)) (acc acc' : List (String × V)) (k : String),
-    unserProps rec env props acc = .ok acc' → hasKey k acc' = hasKey k acc
-  | [], acc, acc', k, h => by simp [unserProps] at h; subst h; rfl
-  | (id, p) :: rest, acc, acc', k, h => by
-    simp only [unserProps] at h
-    split at h
-    · exact C03_unser_keeps_keys rest acc acc' k h
-    · rename_i d hd
-      split at h
-      · simp [cerrAt] at h
-      · split at h
-        · rw [C03_unser_keeps_keys rest _ acc' k h]
-          exact hasKey_setKey k id _ acc (by simp [hasKey, hd])
-        · simp at h
-        · simp at h
-        · simp at h
+theorem hasKey_eq_of_keys {α β} {m : List (String × α)} {m' : List (String × β)}
+    (h : m'.map Prod.fst = m.map Prod.fst) (k : String) : hasKey k m' = hasKey k m := by
+  induction m generalizing m' with
+  | nil => cases m' <;> simp_all [hasKey, lookupS]
+  | cons p rest ih =>
+    cases m' with
+    | nil => simp at h
+    | cons p' rest' =>
+      obtain ⟨k1, v1⟩ := p
+      obtain ⟨k2, v2⟩ := p'
+      simp only [List.map_cons, List.cons.injEq] at h
+      obtain ⟨hk, hr⟩ := h
+      subst hk
+      have := ih hr
+      simp only [hasKey, lookupS] at this ⊢
+      split <;> simp_all
+
+theorem C03_unser_keeps_keys {rec : Rec} {env : Env} (props : List (String × PropT)) (m m' : List (String × V)) (k : String)
+    (h : forSV (objEntryU rec env props) m = .ok m') : hasKey k m' = hasKey k m :=
+  hasKey_eq_of_keys (allSV_keys (forSV_ok_iff.mp h)) k
 
 /-- A disabled property that is present (supplied or defaulted) makes the object reject. -/
-theorem C03_disabled_rejected {rec : Rec} {env : Env} : ∀ (props : List (String × PropT)) (acc : List (String × V))
-    (id : String) (p : PropT), (id, p) ∈ props → p.disabled = true → hasKey id acc = true →
-    (props.map Prod.fst).Nodup → ¬ ∃ acc', unserProps rec env props acc = .ok acc'
-  | [], _, _, _, hm, _, _, _ => by simp at hm
-  | (id', p') :: rest, acc, id, p, hm, hd, hk, hnd => by
-    intro ⟨acc', h⟩
-    simp only [unserProps] at h
+theorem C03_disabled_rejected {rec : Rec} {env : Env} (props : List (String × PropT)) (m : List (String × V))
+    (id : String) (p : PropT) (d : V) (hl : lookupS id props = some p) (hd : p.disabled = true)
+    (hm : (id, d) ∈ m) : ¬ ∃ m', forSV (objEntryU rec env props) m = .ok m' := by
+  intro ⟨m', h⟩
+  have hall := forSV_ok_iff.mp h
+  clear h
+  induction hall with
+  | nil => simp at hm
+  | @cons k v v' rest rest' hf _ ih =>
     rcases List.mem_cons.mp hm with heq | hm'
     · cases heq
-      simp only [hasKey] at hk
-      split at h
-      · rename_i hn; simp [hn] at hk
-      · simp [hd, cerrAt] at h
-    · have hnd' : (rest.map Prod.fst).Nodup := by
-        simp only [List.map_cons, List.nodup_cons] at hnd; exact hnd.2
-      have hne : id ≠ id' := by
-        intro he; subst he
-        simp only [List.map_cons, List.nodup_cons] at hnd
-        exact hnd.1 (List.mem_map.mpr ⟨(id, p), hm', rfl⟩)
-      split at h
-      · exact C03_disabled_rejected rest acc id p hm' hd hk hnd' ⟨acc', h⟩
-      · rename_i d hdd
-        split at h
-        · simp [cerrAt] at h
-        · split at h
-          · rename_i d' _
-            refine C03_disabled_rejected rest _ id p hm' hd ?_ hnd' ⟨acc', h⟩
-            rw [hasKey_setKey id id' d' acc (by simp [hasKey, hdd])]
-            exact hk
-          · simp at h
-          · simp at h
-          · simp at h
+      simp [objEntryU, hl, hd, cerrAt] at hf
+    · exact ih hm'
 
 theorem allSV_objEntry_mem {rec : Rec} {op : Op} {env : Env} {props : List (String × PropT)}
     {m m' : List (String × V)} (hall : AllSV (objEntry rec op env props) m m') :
